@@ -27,9 +27,16 @@ def Cfg.old : Cfg := ⟨false, false⟩
 
 /-! ## Method sets: Go sorts the methods of an interface type — exported names first, in byte order, then unexported -/
 
+/-- upper-case letters (Unicode category Lu) of the alphabets the generators draw names from: ASCII, Latin-1,
+    Greek, Cyrillic.  `go/token.IsExported` = first rune is upper case. -/
+def isUpperU (c : Char) : Bool :=
+  let n := c.toNat
+  (65 ≤ n && n ≤ 90) || (0xC0 ≤ n && n ≤ 0xDE && n != 0xD7) || (0x391 ≤ n && n ≤ 0x3A9 && n != 0x3A2)
+    || (0x410 ≤ n && n ≤ 0x42F)
+
 def isExported (n : String) : Bool :=
   match n.toList with
-  | c :: _ => decide ('A' ≤ c ∧ c ≤ 'Z')
+  | c :: _ => isUpperU c
   | [] => false
 
 def codeLt : List Char → List Char → Bool
@@ -141,11 +148,13 @@ structure St where
   blds : Nat → Bld
   cbs : Nat → Cb
   ncb : Nat
+  /-- ghost of the test program: `CachedInterfaceMocker` handles it kept from `b.Interface(&v)`, keyed by (b, v) -/
+  kept : List ((Nat × Nat) × Nat) := []
 
 def St.init (types : Nat → List String) (vtyp : Nat → Nat) (vars : Nat → Words) : St :=
   { types, vtyp, vars, fakes := fun _ => default, nfake := 0, ctxs := fun _ => {}, nctx := 0,
     mms := fun _ => { ctx := 0 }, nmm := 0, cms := fun _ => { var := 0, typ := 0, ctx := 0 }, ncm := 0,
-    blds := fun _ => {}, cbs := fun _ => .clo, ncb := 0 }
+    blds := fun _ => {}, cbs := fun _ => .clo, ncb := 0, kept := [] }
 
 inductive Kind
   | ap               -- .Apply(cb)
@@ -154,7 +163,11 @@ inductive Kind
 deriving DecidableEq, Repr
 
 inductive Op
-  | mock (b v : Nat) (m : String) (kind : Kind)   -- b.Interface(&v).Method(m).<kind>; the callback gets id `ncb`
+  /-- `b.Interface(&v).Method(m).<kind>`; the callback gets id `ncb`; `fits` = its signature fits the method
+      (internal/proxy/interface.go:36-44 arg count and `checkSignature`, decided by reflect) -/
+  | mock (b v : Nat) (m : String) (kind : Kind) (fits : Bool)
+  /-- the same through a `CachedInterfaceMocker` handle the test kept from its first `b.Interface(&v)` -/
+  | mockH (b v : Nat) (m : String) (kind : Kind) (fits : Bool)
   | reset (b : Nat)                               -- b.Reset()
   | drop (b : Nat)                                -- the test drops its reference to builder b
 deriving Repr
@@ -192,11 +205,14 @@ def methodOf (s : St) (j : Nat) (m : String) : Nat × St :=
   | some i => if (s.mms i).canceled then freshMM s j m else (i, s)
   | none => freshMM s j m
 
+/-- internal/hack/iface.go:7 `MaxMethod`: length of the fabricated itab's function table -/
+def maxMethod : Nat := 999
+
 /-- internal/proxy/interface.go:21 `Interface` for variable `v` of type `t` in context `c`; `cb` says whether a MakeFunc proxy
     is used.  `none`: index beyond `hack.MaxMethod`. -/
 def proxyInterface (cfg : Cfg) (s : St) (v t c : Nat) (m : String) (k : Nat) (cb : Cb) : Option St :=
   let idx := methodIndexOf (s.types t) m                                      -- :37
-  if idx ≥ 999 then none else
+  if idx ≥ maxMethod then none else                                          -- make_interface.go:84 index out of range
   let cx0 := s.ctxs c
   let cx : Ctx :=
     { cache := cx0.cache,
@@ -223,11 +239,8 @@ inductive Status
   | panic (cls : String)
 deriving DecidableEq, Repr
 
-/-- `b.Interface(&v).Method(m).Apply(cb)` / `.As(cb).Return(r)` / `.As(cb).When(a).Return(r)` -/
-def mockStep (cfg : Cfg) (s : St) (b v : Nat) (m : String) (kind : Kind) : Option (St × Status) :=
-  let k := s.ncb
-  let s := { s with ncb := k + 1 }
-  let (j, s) := interfaceOf cfg s b v
+/-- `cm.Method(m).Apply(cb)` / `.As(cb).Return(r)` / `.As(cb).When(a).Return(r)` on cached mocker `j`, callback id `k` -/
+def mockOn (cfg : Cfg) (s : St) (j : Nat) (m : String) (kind : Kind) (fits : Bool) (k : Nat) : Option (St × Status) :=
   let cm := s.cms j
   -- iface.go:69 Method / :79 checkMethod: on the type of the mocker's own iFace
   if m = "" then some (s, .panic "method-is-empty") else
@@ -236,20 +249,41 @@ def mockStep (cfg : Cfg) (s : St) (b v : Nat) (m : String) (kind : Kind) : Optio
   let mm := s.mms i
   match kind with
   | .ap =>                                                                       -- iface.go:88 Apply
-    (proxyInterface cfg s cm.var cm.typ cm.ctx m k .clo).map fun s =>
-      ({ s with mms := upd s.mms i { mm with hasGuard := true, imp := some k } }, .ok)
-  | .rt =>                                                                       -- iface.go:127 Return
+    -- mocker.go:127 proxy.Interface returns an error before touching anything: no guard, no backup
+    if ¬ fits then some (s, .panic "applyerr") else
+    (proxyInterface cfg s cm.var cm.typ cm.ctx m k .clo).map fun s =>           -- iface.go:94 `m.when = nil`
+      ({ s with mms := upd s.mms i { mm with hasGuard := true, imp := some k, canceled := false, when_ := none } }, .ok)
+  | .rt =>                                                                       -- iface.go:131 Return
     match mm.when_ with
     | some _ => none                                                             -- when.Return(...): C12's subject
     | none =>
+      if ¬ fits then some (s, .panic "applyerr") else
       (proxyInterface cfg s cm.var cm.typ cm.ctx m k (.mk i)).map fun s =>
-        ({ s with mms := upd s.mms i { mm with hasGuard := true, imp := some k, when_ := some ⟨some k, []⟩ } }, .ok)
-  | .wn a =>                                                                     -- iface.go:106 When(a) then when.go:146 Return
+        ({ s with mms := upd s.mms i { mm with hasGuard := true, imp := some k, canceled := false, when_ := some ⟨some k, []⟩ } }, .ok)
+  | .wn a =>                                                                     -- iface.go:108 When(a) then when.go:146 Return
     match mm.when_ with
     | some _ => none
     | none =>
+      if ¬ fits then some (s, .panic "applyerr") else
       (proxyInterface cfg s cm.var cm.typ cm.ctx m k (.mk i)).map fun s =>
-        ({ s with mms := upd s.mms i { mm with hasGuard := true, imp := some k, when_ := some ⟨none, [(a, k)]⟩ } }, .ok)
+        ({ s with mms := upd s.mms i { mm with hasGuard := true, imp := some k, canceled := false, when_ := some ⟨none, [(a, k)]⟩ } }, .ok)
+
+/-- `b.Interface(&v).Method(m)…` -/
+def mockStep (cfg : Cfg) (s : St) (b v : Nat) (m : String) (kind : Kind) (fits : Bool) : Option (St × Status) :=
+  let k := s.ncb
+  let s := { s with ncb := k + 1 }
+  let (j, s) := interfaceOf cfg s b v
+  mockOn cfg s j m kind fits k
+
+/-- `h.Method(m)…` where `h` is the handle kept from the first `b.Interface(&v)` of the test (obtained now if there is none) -/
+def mockHStep (cfg : Cfg) (s : St) (b v : Nat) (m : String) (kind : Kind) (fits : Bool) : Option (St × Status) :=
+  let k := s.ncb
+  let s := { s with ncb := k + 1 }
+  match lookup (b, v) s.kept with
+  | some j => mockOn cfg s j m kind fits k
+  | none =>
+    let (j, s) := interfaceOf cfg s b v
+    mockOn cfg { s with kept := insertKV (b, v) j s.kept } j m kind fits k
 
 /-- make_interface.go:22 `IContext.Cancel`; `none` if there is no backup (a nil dereference in the Go code; unreachable
     because a guard exists only after `BackUpTo`) -/
@@ -277,9 +311,15 @@ def mmsOf (s : St) (b : Nat) : List Nat :=
 def resetStep (s : St) (b : Nat) : Option St := cancelMMs s (mmsOf s b)
 
 def step (cfg : Cfg) (s : St) : Op → Option (St × Status)
-  | .mock b v m kind => mockStep cfg s b v m kind
+  | .mock b v m kind fits => mockStep cfg s b v m kind fits
+  | .mockH b v m kind fits => mockHStep cfg s b v m kind fits
   | .reset b => (resetStep s b).map fun s => (s, .ok)
   | .drop b => some ({ s with blds := upd s.blds b { s.blds b with alive := false } }, .ok)
+
+/-- the documented use of the API: `mock.Interface(&v).Method(..)...`, `mock.Reset()` (no kept handles) -/
+def Op.builderApi : Op → Bool
+  | .mockH .. => false
+  | _ => true
 
 def run (cfg : Cfg) : St → List Op → Option St
   | s, [] => some s
